@@ -105,6 +105,46 @@ def firstSome {α β : Type} (f : α → Option β) : List α → Option β
   | [] => none
   | x :: xs => match f x with | some y => some y | none => firstSome f xs
 
+/-- `Server.Init` (first use): the init handler is queued; in snapshot mode the credentials service
+    gets the instance token and the init request's keys -/
+def startServerInit (s : State) : State :=
+  if s.inited then s else
+  { s with inited := true, initChan := .pending, queue := s.queue ++ [.init],
+           credKey := if s.snapshot then some "AKIDEXAMPLE" else none }
+
+def restoreDoneEvent (s : State) (ok : Bool) : State :=
+  s.emit s!"ev restoreRuntimeDone:{if ok then "success" else "error"}:{if ok then "-" else s.fatal.getD "Runtime.Unknown"}"
+
+/-- `handleRestore` up to its wait (it does not take the handler mutex) -/
+def handleRestore (s : State) (key : String) : State :=
+  match s.credKey with
+  | none => (restoreDoneEvent s true).emit "restore done err=errRestoreUpdateCredentials"
+  | some _ =>
+    let s := { s with credKey := some key, renderer := .restore }
+    if s.rt != some .restoreReady then (restoreDoneEvent s true).emit "restore done err=ok"
+    else { s with rtFlag := true, restoreWaiting := true, timers := s.timers ++ ["restoreHook"] }
+
+/-- the end of `handleRestore` with the error (if any) of the wait -/
+def restoreFinish (s : State) (err : Option String) : State :=
+  let s := { s with restoreWaiting := false, timers := s.timers.filter (· != "restoreHook") }
+  let err := match s.fatal with | some t => some t | none => err
+  match err with
+  | none => (restoreDoneEvent s true).emit "restore done err=ok"
+  | some e => (restoreDoneEvent s false).emit s!"restore done err={e}"
+
+/-- the restore thread resumes when the runtime-ready gate of the init flow opens or is cancelled -/
+def restoreResume (s : State) : Option State :=
+  if !s.restoreWaiting then none else
+  let g := s.initFlow.runtimeReady
+  if !g.isOpen then none else
+  if !g.canceled then some (restoreFinish s none)
+  else some (restoreFinish s (some (match g.err with
+    | some .restoreUser => s!"userError:{s.restoreUserType}"
+    | some .restoreTimeout => "Runtime.RestoreHookUserTimeout"
+    | some .reset => "errResetReceived"
+    | some .procExit => "procExit"
+    | _ => "ErrGateCanceled")))
+
 def orElse' {α : Type} (a : Option α) (b : Unit → Option α) : Option α :=
   match a with | some x => some x | none => b ()
 
@@ -112,6 +152,7 @@ def orElse' {α : Type} (a : Option α) (b : Unit → Option α) : Option α :=
 def platformMove (lifo : Bool) (s : State) : Option State :=
   orElse' (orchResume s) fun _ =>
   orElse' (shutResume s s.shutFrom) fun _ =>
+  orElse' (restoreResume s) fun _ =>
   match s.orch, s.queue with
   | .idle, r :: rest =>
     -- sync.Mutex is not FIFO: any waiting handler may get the handler-execution mutex
@@ -181,6 +222,10 @@ inductive Op where
   | rtInitError (etype : String)
   | rtRestoreNext
   | rtRaw (method path : String)
+  | rtRestoreError (etype : String)
+  | rtCreds (tok : String)
+  | init
+  | restore (key : String)
   | exit (base : String) (status : String) (zero : Bool)
   | reset (reason : String)
   | shutdown
@@ -189,7 +234,7 @@ inductive Op where
 
 def applyOp (s : State) : Op → State
   | .invoke c _ h =>
-    let s := if !s.inited then { s with inited := true, initChan := .pending, queue := s.queue ++ [.init] } else s
+    let s := startServerInit s
     if s.resv.isSome then s.emit s!"caller{c} done err=AlreadyReserved body=empty"
     else
       let k := s.nextK
@@ -206,6 +251,11 @@ def applyOp (s : State) : Op → State
   | .rtRestoreNext =>
     if !s.snapshot then reply s "rt" "restorenext" "404" else rtCallBlocking s "restorenext" .restoreReady
   | .rtRaw m p => reply s "rt" s!"raw:{m}:{p}" (rawRoute s.snapshot m p)
+  | .rtRestoreError et =>
+    if !s.snapshot then reply s "rt" "restoreerror" "404" else rtRestoreError s et
+  | .rtCreds tok => if !s.snapshot then reply s "rt" s!"creds:{tok}" "404" else rtCreds s tok
+  | .init => startServerInit s
+  | .restore key => handleRestore s key
   | .exit base status zero =>
     match newestProc s base with
     | some p => die s p.full status zero
@@ -218,6 +268,9 @@ def applyOp (s : State) : Op → State
     if name == "rtDeadline" then { s with rtDeadlineFired := true }
     else if name == "agDeadline" then { s with agDeadlineFired := true }
     else if name == "grace" then { s with graceFired := true }
+    else if name == "restoreHook" then
+      -- deadline of AwaitRuntimeReadyWithDeadline: ErrRestoreHookTimeout, the init flow is cancelled
+      if s.restoreWaiting then restoreFinish (cancelInitFlow s .restoreTimeout) (some "Runtime.RestoreHookUserTimeout") else s
     else if name == "resetTail:0" then resetTail s 0
     else if name == "resetTail:1" then resetTail s 1
     else if name == "resetTail:2" then resetTail s 2
